@@ -132,6 +132,10 @@ func init() {
 				}
 			}
 		}
+		// two handshakes at once (different users; the same session): each client can open its reply and holds
+		// the key of the session the server created - with memory points before unsynchronised writes
+		jobs = append(jobs, vx.Job{Scenario: "srv.join", Params: vx.P("conns", "0.1,1.1", "cap", "1", "mem", "1"), Bound: map[bool]int{true: 1, false: 2}[tier == "quick"], BudgetS: 100, Weight: 6},
+			vx.Job{Scenario: "srv.join", Params: vx.P("conns", "0.1,0.1", "cap", "1", "mem", "1"), Bound: map[bool]int{true: 1, false: 2}[tier == "quick"], BudgetS: 100, Weight: 6})
 		return jobs
 	})
 }
